@@ -457,6 +457,22 @@ def anim_case(case, ctx):
                     ctx.check(xlim == (0.0, float(mk)), "frame-axis", f"frame {k}: x axis {xlim}, expected (0, {mk})")
             # (the number of frames stored in these GIFs is not asserted: the
             # writer merges consecutive identical frames, e.g. zero-width bars)
+            if mode == "creator" and n >= 2:
+                # the same creator / plotter used again for a plain chart of a
+                # different (shorter) schedule
+                d.reset()
+                model2 = ref(inst)
+                for k in range(min(2, n)):
+                    ready = model2.ready()
+                    j, p = ready[-1]
+                    mm = inst["machines"][j][p][0]
+                    d.dispatch(instance.jobs[j][p], mm)
+                    model2.apply(j, mm)
+                fig = creator.plot_gantt_chart()
+                check_chart_axes(
+                    ctx, fig.axes[0], model2, len(inst["durations"]),
+                    "GanttChartCreator.plot_gantt_chart() after create_gif() and a reset",
+                )
         else:
             calls = []
             plotter = pattern_plotter(calls)
@@ -499,6 +515,18 @@ def anim_case(case, ctx):
                 f"frames of the written file decode to {decoded[:15]}...{decoded[-5:]} (len {len(decoded)}), expected 1..{n}",
             )
             ctx.count("frames_decoded", len(decoded))
+            if mode == "order" and n >= 100:
+                # a second, short animation written to the same path
+                del calls[:]
+                create_gantt_chart_gif(
+                    instance, gif_path=path, plot_function=plotter, schedule_history=history[:5], fps=10
+                )
+                again = [decode(f) for f in imageio.mimread(path, memtest=False)]
+                ctx.check(
+                    again == [1, 2, 3, 4, 5],
+                    "frame-order-second-animation",
+                    f"a 5-operation animation written to the path of an earlier {n}-operation one decodes to {again}",
+                )
     finally:
         plt.close("all")
         shutil.rmtree(tmp, ignore_errors=True)
